@@ -176,7 +176,7 @@ def is_class(re, env):
 KNOWN_CHARS = list(range(32, 127)) + [10, 9, 27, 233, 769, 28450, 128512]
 
 
-def sample_class(re, env, rnd, sigma, builtins):
+def sample_class(re, env, rnd, sigma, builtins, known_chars=None):
     """A member of the class among the program's alphabet, else among characters whose display
     width Chars.tla states (printable ASCII and the location alphabet): inputs never contain a
     character the specification has no width for."""
@@ -186,13 +186,13 @@ def sample_class(re, env, rnd, sigma, builtins):
     inside = [c for c in sigma if any(lo <= c <= hi for lo, hi in iv)]
     if inside and rnd.random() < 0.85:
         return rnd.choice(inside)
-    known = [c for c in KNOWN_CHARS if any(lo <= c <= hi for lo, hi in iv)]
+    known = [c for c in (KNOWN_CHARS if known_chars is None else known_chars) if any(lo <= c <= hi for lo, hi in iv)]
     if known:
         return rnd.choice(known)
     return rnd.choice(inside) if inside else None
 
 
-def sample_regex(re, env, rnd, sigma, builtins=None, depth=0):
+def sample_regex(re, env, rnd, sigma, builtins=None, depth=0, known_chars=None):
     """A random string (list of code points) of the language of re ($ contributes nothing)."""
     k = re["k"]
     if k == "str":
@@ -201,22 +201,23 @@ def sample_regex(re, env, rnd, sigma, builtins=None, depth=0):
         return []
     if k in ("chr", "set", "any", "bi", "diff") or (k in ("alt", "var") and is_class(re, env)):
         try:
-            c = sample_class(re, env, rnd, sigma, builtins)
+            c = sample_class(re, env, rnd, sigma, builtins, known_chars)
         except Exception:
             c = None
         return [] if c is None else [c]
     if k == "var":
-        return sample_regex(env[re["n"]], env, rnd, sigma, builtins, depth + 1)
+        return sample_regex(env[re["n"]], env, rnd, sigma, builtins, depth + 1, known_chars)
     if k == "cat":
-        return sample_regex(re["a"], env, rnd, sigma, builtins, depth + 1) + sample_regex(re["b"], env, rnd, sigma, builtins, depth + 1)
+        return (sample_regex(re["a"], env, rnd, sigma, builtins, depth + 1, known_chars)
+                + sample_regex(re["b"], env, rnd, sigma, builtins, depth + 1, known_chars))
     if k == "alt":
-        return sample_regex(re[rnd.choice("ab")], env, rnd, sigma, builtins, depth + 1)
+        return sample_regex(re[rnd.choice("ab")], env, rnd, sigma, builtins, depth + 1, known_chars)
     n = {"star": rnd.choice([0, 1, 2, 3]), "plus": rnd.choice([1, 1, 2, 3]), "opt": rnd.choice([0, 1])}[k]
     if depth > 6:
         n = min(n, 1)
     out = []
     for _ in range(n):
-        out += sample_regex(re["a"], env, rnd, sigma, builtins, depth + 1)
+        out += sample_regex(re["a"], env, rnd, sigma, builtins, depth + 1, known_chars)
     return out
 
 # ---------------------------------------------------------------------------------------------
